@@ -33,6 +33,7 @@ func runC05(r *an.Run) {
 	c05ParenReset(r)
 	formatOnly(r, "R4-printing-adds-nothing")
 	c05NoStaleSlot(r)
+	slotIsTheRecordedSlot(r, "R10-the-slot-written-is-the-slot-matched")
 	c04AnchoringAndConsumption(r)
 	c04Reproduction(r)
 	relabel(r, "R3-anchoring-and-consumption", "R6-elided-elements-reproduced-whole")
@@ -46,6 +47,13 @@ func runC05(r *an.Run) {
 	c05FileIdentity(r)
 	// the library: what Apply returns for one file is not scratch space of the next call
 	libraryFileImmutable(r, "R9-library-results-do-not-alias")
+	// what ends up on disk is the printed tree and nothing else: a file that is not empty when the bytes are
+	// written keeps the tail of the old source behind the new one — code outside every rewritten fragment,
+	// twice
+	if m := buildRunModel(r); m != nil {
+		c07WrittenFileStartsEmpty(r, m)
+		relabel(r, "R4-the-written-file-holds-exactly-the-validated-bytes", "R11-the-written-file-holds-only-the-printed-tree")
+	}
 }
 
 // astWrites lists stores whose destination is a field of a go/ast (or
